@@ -33,8 +33,8 @@ def cases(tier, seed):
         for j in range(per):
             s = int(rng.integers(1 << 30))
             for dims in itertools.product(range(1, F + 1), repeat=3):
-                out.append({"cell": cellkind, "s": s, "dims": list(dims), "n": 1 + (s + j) % 7, "impropers": j % 2 == 0,
-                            "combo": (ci * per + j) * 7 % 16 if (ci * per + j) % 4 != 3 else None})
+                out.append({"cell": cellkind, "s": s, "dims": list(dims), "n": 1 if j == 1 else 1 + (s + j) % 7, "impropers": j % 2 == 0, "origin": j % 2 == 1,
+                            "combo": (ci * per + j) * 7 % 16 if ((ci * per + j) % 4 != 3 and j != 1) else None})
     return out
 
 
@@ -50,6 +50,12 @@ def run_case(case, ctx):
         case = dict(case, n=max(case["n"], 4))
         kinds = {k: (max(1, kinds[k]) if p else 0) for k, p in zip(["bond", "angle", "dihedral", "improper"], present)}
     a = atomsgen.gen_atoms(rng, case["n"], tag="S", cell=case["cell"], kinds=kinds, max_terms=3, scale=6.0)
+    if case.get("origin"):
+        # the textbook primitive cell: an atom exactly at the origin (all coordinates zero) - alone, or with the others elsewhere
+        a.positions[0] = 0.0
+        st.count("structures_with_an_atom_at_the_origin")
+        if len(a) == 1:
+            st.count("one_atom_cells_with_the_atom_at_the_origin")
     snap = clone(a)
     m0 = AM.resolve(a)
     cell = np.array(a.cell, float)
@@ -160,6 +166,8 @@ def run_case(case, ctx):
 
 def requirements(stats, tier):
     need = []
+    if stats.get("one_atom_cells_with_the_atom_at_the_origin") < 3:
+        need.append("one-atom cells with the atom at the origin: %d" % stats.get("one_atom_cells_with_the_atom_at_the_origin"))
     F = 3 if tier == "quick" else 5
     if stats.nseen("dims") < F ** 3:
         need.append("only %d of %d factor triples observed" % (stats.nseen("dims"), F ** 3))
